@@ -344,16 +344,35 @@ func propCoord(c Case) error {
 	return nil
 }
 
+// snapBounds renders the layout and every dimension the box holds: Set stores as many
+// dimensions as it is given, which may be more than the layout names.
 func snapBounds(b *geom.Bounds) string {
 	s := fmt.Sprintf("%v", b.Layout())
-	for i := 0; i < b.Layout().Stride(); i++ {
-		s += fmt.Sprintf(" [%x,%x]", math.Float64bits(b.Min(i)), math.Float64bits(b.Max(i)))
+	for i := 0; i < 12; i++ {
+		var lo, hi float64
+		ok := func() (ok bool) {
+			defer func() {
+				if recover() != nil {
+					ok = false
+				}
+			}()
+			lo, hi = b.Min(i), b.Max(i)
+			return true
+		}()
+		if !ok {
+			break
+		}
+		s += fmt.Sprintf(" [%x,%x]", math.Float64bits(lo), math.Float64bits(hi))
 	}
 	return s
 }
 
 func propBounds(c Case) error {
 	l := map[int]geom.Layout{2: geom.XY, 3: geom.XYZ, 4: geom.XYZM}[len(c.Coord)]
+	// a box may be given more dimensions than its layout names (Set stores them all)
+	if len(c.Muts)%3 == 0 && len(c.Coord) > 2 {
+		l = geom.XY
+	}
 	hi := make([]float64, len(c.Coord))
 	for i, v := range c.Coord {
 		hi[i] = v.V() + float64(i+1)
